@@ -98,6 +98,13 @@ FloorIrrelevant == \A x \in CostRows : x.needs = (x.m # x.memKiB \/ x.t # x.ops)
 \* a parsed string re-encodes its cost fields unchanged whatever their size: the (m, t) pairs the harness parses and re-encodes
 CostStrings == {[m |-> m, t |-> t] : m \in BigM, t \in BigT}
 
+(* ---- fields are recognised by position, not by what their text looks like ------------------------
+   The salt and the hash are base64 text: nothing stops that text from beginning like another field ("argon2id...").  In
+   this model a segment's KIND is given (SegB64), so ParseEncode covers such strings by construction; the texts below are
+   what the harness uses as 16-byte salts so that the implementation's way of telling segments apart is put to the test
+   (the pinned commit refused the first three: repaired in /repo 228bb24). *)
+LookAlikeSalts == {"argon2idAAAAAAAAAAAAAA", "argon2iBBBBBBBBBBBBBBA", "argon2ABCDEFGHIJKLMNOA", "vvvvvvvvvvvvvvvvvvvvvA", "mtpmtpmtpmtpmtpmtpmtpA"}
+
 (* ---- the mutation grammar (C04 string rows): one deviation from a valid string ------------- *)
 Remove(s, i) == SubSeq(s, 1, i - 1) \o SubSeq(s, i + 1, Len(s))
 Insert(s, i, x) == SubSeq(s, 1, i - 1) \o <<x>> \o SubSeq(s, i, Len(s))
